@@ -278,6 +278,174 @@ Fixpoint merge_join (fuel : nat) (left_outer : bool) (L R : side) : list (row * 
       end
   end.
 
+(* ---- mergeJoinKvIter as the state machine of merge_join.go --------------------------------------------
+   The fields are those of the Go struct: leftKey (sm_lk, None = nil), the unread rest of leftIter (sm_ls), rightKey,
+   the unread rest of rightIter, nextRightKey, lookaheadBuf, matchPos, matchedLeft, exhaustLeft.  sm_pc is the control
+   point: PEntry = top of Next (after a row was returned), PCompare = label "compare", PMatch = label "match",
+   PExhaust = exhaustLeftReturn.  One step = one loop iteration of Next; Emit = "return row". *)
+Inductive pc := PEntry | PCompare | PMatch | PExhaust.
+Record sm := { sm_pc : pc; sm_lk : option (cell * row); sm_ls : side; sm_rk : option (cell * row); sm_rs : side;
+               sm_nrk : option (cell * row); sm_buf : side; sm_mpos : nat; sm_matched : bool; sm_exhaust : bool }.
+Inductive sm_result := Stop | Tau (s : sm) | Emit (o : row * option row) (s : sm).
+
+Definition null_row (l : cell * row) : row * option row := (snd l, None).
+Definition pair_row (l r : cell * row) : row * option row := (snd l, Some (snd r)).
+
+(* fillMatchBuf: append the following right rows that compare equal to the left key; nextRightKey is the first that
+   does not (nil at EOF).  Whatever nextRightKey held before is overwritten. *)
+Definition sm_fill (l : cell * row) (s : sm) : sm :=
+  let (b, rest) := span (fun r' => cmp_is_eq (cmp_cell (fst l) (fst r'))) (sm_rs s) in
+  {| sm_pc := PMatch; sm_lk := sm_lk s; sm_ls := sm_ls s; sm_rk := sm_rk s;
+     sm_rs := tl rest; sm_nrk := hd_error rest; sm_buf := sm_buf s ++ b; sm_mpos := sm_mpos s;
+     sm_matched := sm_matched s; sm_exhaust := sm_exhaust s |}.
+
+Definition sm_step (lo : bool) (s : sm) : sm_result :=
+  match sm_pc s with
+  | PEntry =>
+      match sm_lk s with
+      | None =>                                   (* initialize() *)
+          match sm_ls s with
+          | [] => Stop                            (* left EOF (LEFT JOIN: exhaustLeftReturn with leftKey == nil) *)
+          | l :: ls' =>
+              match sm_rs s with
+              | [] => if lo then Tau {| sm_pc := PExhaust; sm_lk := Some l; sm_ls := ls'; sm_rk := None; sm_rs := [];
+                                        sm_nrk := sm_nrk s; sm_buf := sm_buf s; sm_mpos := sm_mpos s;
+                                        sm_matched := sm_matched s; sm_exhaust := true |}
+                      else Stop
+              | r :: rs' => Tau {| sm_pc := PEntry; sm_lk := Some l; sm_ls := ls'; sm_rk := Some r; sm_rs := rs';
+                                   sm_nrk := sm_nrk s; sm_buf := sm_buf s; sm_mpos := sm_mpos s;
+                                   sm_matched := sm_matched s; sm_exhaust := sm_exhaust s |}
+              end
+          end
+      | Some _ =>
+          let next := if sm_exhaust s then PExhaust
+                      else if (match sm_buf s with [] => false | _ => true end) || (0 <? sm_mpos s)%nat then PMatch
+                      else PCompare in
+          Tau {| sm_pc := next; sm_lk := sm_lk s; sm_ls := sm_ls s; sm_rk := sm_rk s; sm_rs := sm_rs s; sm_nrk := sm_nrk s;
+                 sm_buf := sm_buf s; sm_mpos := sm_mpos s; sm_matched := sm_matched s; sm_exhaust := sm_exhaust s |}
+      end
+  | PExhaust =>                                    (* exhaustLeftReturn *)
+      match sm_lk s with
+      | None => Stop
+      | Some l =>
+          if sm_matched s then
+            match sm_ls s with
+            | [] => Stop
+            | l' :: ls' => Emit (null_row l') {| sm_pc := PEntry; sm_lk := Some l'; sm_ls := ls'; sm_rk := sm_rk s; sm_rs := sm_rs s;
+                                                 sm_nrk := sm_nrk s; sm_buf := sm_buf s; sm_mpos := sm_mpos s;
+                                                 sm_matched := true; sm_exhaust := true |}
+            end
+          else Emit (null_row l) {| sm_pc := PEntry; sm_lk := Some l; sm_ls := sm_ls s; sm_rk := sm_rk s; sm_rs := sm_rs s;
+                                    sm_nrk := sm_nrk s; sm_buf := sm_buf s; sm_mpos := sm_mpos s;
+                                    sm_matched := true; sm_exhaust := true |}
+      end
+  | PCompare =>
+      match sm_lk s, sm_rk s with
+      | Some l, Some r =>
+          match cmp_cell (fst l) (fst r) with
+          | Lt =>
+              let old := lo && negb (sm_matched s) in
+              match sm_ls s with
+              | [] => if old then Emit (null_row l) {| sm_pc := PEntry; sm_lk := None; sm_ls := []; sm_rk := sm_rk s; sm_rs := sm_rs s;
+                                                       sm_nrk := sm_nrk s; sm_buf := sm_buf s; sm_mpos := sm_mpos s;
+                                                       sm_matched := false; sm_exhaust := true |}
+                      else Stop
+              | l' :: ls' =>
+                  let s' := {| sm_pc := if old then PEntry else PCompare; sm_lk := Some l'; sm_ls := ls'; sm_rk := sm_rk s;
+                               sm_rs := sm_rs s; sm_nrk := sm_nrk s; sm_buf := sm_buf s; sm_mpos := sm_mpos s;
+                               sm_matched := false; sm_exhaust := sm_exhaust s |} in
+                  if old then Emit (null_row l) s' else Tau s'
+              end
+          | Eq => Tau (sm_fill l s)
+          | Gt =>
+              match sm_nrk s with
+              | Some x => Tau {| sm_pc := PCompare; sm_lk := sm_lk s; sm_ls := sm_ls s; sm_rk := Some x; sm_rs := sm_rs s;
+                                 sm_nrk := None; sm_buf := sm_buf s; sm_mpos := sm_mpos s;
+                                 sm_matched := sm_matched s; sm_exhaust := sm_exhaust s |}
+              | None =>
+                  match sm_rs s with
+                  | [] => if lo then Tau {| sm_pc := PExhaust; sm_lk := sm_lk s; sm_ls := sm_ls s; sm_rk := None; sm_rs := [];
+                                            sm_nrk := None; sm_buf := sm_buf s; sm_mpos := sm_mpos s;
+                                            sm_matched := sm_matched s; sm_exhaust := true |}
+                          else Stop
+                  | r' :: rs' => Tau {| sm_pc := PCompare; sm_lk := sm_lk s; sm_ls := sm_ls s; sm_rk := Some r'; sm_rs := rs';
+                                        sm_nrk := None; sm_buf := sm_buf s; sm_mpos := sm_mpos s;
+                                        sm_matched := sm_matched s; sm_exhaust := sm_exhaust s |}
+                  end
+              end
+          end
+      | _, _ => Stop
+      end
+  | PMatch =>
+      match sm_lk s with
+      | None => Stop
+      | Some l =>
+          let cand (x : cell * row) :=
+            let ok := jf l x in
+            let s' := {| sm_pc := if ok then PEntry else PMatch; sm_lk := sm_lk s; sm_ls := sm_ls s; sm_rk := sm_rk s;
+                         sm_rs := sm_rs s; sm_nrk := sm_nrk s; sm_buf := sm_buf s; sm_mpos := S (sm_mpos s);
+                         sm_matched := sm_matched s || ok; sm_exhaust := sm_exhaust s |} in
+            if ok then Emit (pair_row l x) s' else Tau s' in
+          match nth_error (sm_buf s) (sm_mpos s) with
+          | Some x => cand x                        (* matchPos < len(lookaheadBuf) *)
+          | None =>
+              if Nat.eqb (sm_mpos s) (length (sm_buf s))
+              then match sm_rk s with Some r => cand r | None => Stop end
+              else                                   (* matches for leftKey exhausted *)
+                match sm_ls s with
+                | [] => if lo && negb (sm_matched s)
+                        then Emit (null_row l) {| sm_pc := PEntry; sm_lk := None; sm_ls := []; sm_rk := sm_rk s; sm_rs := sm_rs s;
+                                                  sm_nrk := sm_nrk s; sm_buf := sm_buf s; sm_mpos := O;
+                                                  sm_matched := sm_matched s; sm_exhaust := true |}
+                        else Stop
+                | l' :: ls' =>
+                    let same := cmp_is_eq (cmp_cell (fst l) (fst l')) in
+                    (* new left key: drop the buffer and advance the right side *)
+                    let adv : option (option (cell * row) * side * option (cell * row) * bool) :=
+                      if same then Some (sm_rk s, sm_rs s, sm_nrk s, sm_exhaust s)
+                      else match sm_nrk s with
+                           | Some x => Some (Some x, sm_rs s, None, sm_exhaust s)
+                           | None => match sm_rs s with
+                                     | [] => if lo then Some (None, [], None, true) else None
+                                     | r' :: rs' => Some (Some r', rs', None, sm_exhaust s)
+                                     end
+                           end in
+                    match adv with
+                    | None => Stop
+                    | Some (rk', rs', nrk', ex') =>
+                        let buf' := if same then sm_buf s else [] in
+                        if lo && negb (sm_matched s)
+                        then Emit (null_row l) {| sm_pc := PEntry; sm_lk := Some l'; sm_ls := ls'; sm_rk := rk'; sm_rs := rs';
+                                                  sm_nrk := nrk'; sm_buf := buf'; sm_mpos := O;
+                                                  sm_matched := sm_matched s; sm_exhaust := ex' |}
+                        else Tau {| sm_pc := if same then PMatch else if ex' then PExhaust else PCompare;
+                                    sm_lk := Some l'; sm_ls := ls'; sm_rk := rk'; sm_rs := rs'; sm_nrk := nrk'; sm_buf := buf';
+                                    sm_mpos := O; sm_matched := false; sm_exhaust := ex' |}
+                    end
+                end
+          end
+      end
+  end.
+
+Definition sm_init (L R : side) : sm :=
+  {| sm_pc := PEntry; sm_lk := None; sm_ls := L; sm_rk := None; sm_rs := R; sm_nrk := None; sm_buf := [];
+     sm_mpos := O; sm_matched := false; sm_exhaust := false |}.
+
+(* repeated calls of Next until EOF; None = out of fuel *)
+Fixpoint sm_exec (fuel : nat) (lo : bool) (s : sm) : option (list (row * option row)) :=
+  match fuel with
+  | O => None
+  | S fuel' =>
+      match sm_step lo s with
+      | Stop => Some []
+      | Tau s' => sm_exec fuel' lo s'
+      | Emit o s' => option_map (cons o) (sm_exec fuel' lo s')
+      end
+  end.
+
+Definition merge_join_sm (fuel : nat) (lo : bool) (L R : side) : option (list (row * option row)) :=
+  sm_exec fuel lo (sm_init L R).
+
 (* covLaxSecondaryLookupGen.New for a one-column prefix: a NULL key gives the empty iterator; otherwise the key
    range [k, k+1) when the increment does not overflow, else the prefix range (closedRange k k, filtered by Matches) *)
 Definition lookup (k : cell) (R : side) : side :=
